@@ -120,8 +120,9 @@ class Check:
             ev["coverage"]["known_findings_hit"] = [k[0] for k in self.known]
         evdir = Path(os.environ.get("VERIF_EVIDENCE_DIR") or (VERIF / "evidence"))
         evdir.mkdir(exist_ok=True)
-        with open(evdir / f"{self.pid}.json", "w") as f:
-            json.dump(ev, f, indent=1, default=jsonable)
+        if not os.environ.get("VERIF_NO_EVIDENCE"):     # a --replay run re-executes one scenario: it is not evidence of coverage
+            with open(evdir / f"{self.pid}.json", "w") as f:
+                json.dump(ev, f, indent=1, default=jsonable)
         for sig, what in self.known:
             print(f"KNOWN-FINDING: property={self.pid} {sig} :: {what}")
         rc = 0
